@@ -113,6 +113,15 @@ impl AuthData {
     }
 }
 
+#[cfg(aranya_core_verif)]
+impl AuthData {
+    /// Verification hook: the byte representation passed to
+    /// the AEAD as additional data.
+    pub fn verif_to_bytes(&self) -> [u8; Self::PACKED_SIZE] {
+        self.to_bytes()
+    }
+}
+
 /// An encryption key.
 pub struct SealKey<CS: CipherSuite> {
     ctx: SealCtx<CS::Aead>,
